@@ -310,7 +310,12 @@ func checkFieldFacts(c *Ctx, r *Report) {
 				}
 			} else if lenV != nil {
 				// length and hash both come from the same parameter object (icvLength / hashGen): pairs are checked against the table
-				if ld, ok := lenV.(*ssa.UnOp); ok && strings.HasSuffix(apOf(ld.X).SelString(), "icvLength") {
+				authFn, _, _ := c.algorithmCtors()
+				lenField := "icvLength"
+				if authFn != nil {
+					_, lenField = authParamFields(authFn)
+				}
+				if ld, ok := lenV.(*ssa.UnOp); ok && strings.HasSuffix(apOf(ld.X).SelString(), lenField) {
 					good = c.icvPairsWithinDigest(sizes)
 					why = "an (hash, icvLength) pair in the authentication algorithm table has icvLength larger than the digest"
 				}
@@ -320,43 +325,22 @@ func checkFieldFacts(c *Ctx, r *Report) {
 	}
 }
 
-// icvPairsWithinDigest checks every (hashGen, icvLength) literal.
+// icvPairsWithinDigest checks every (hash constructor, ICV length) pair the
+// authentication parameter constructor can return (read per path, so a
+// literal and field assignments are the same thing).
 func (c *Ctx) icvPairsWithinDigest(sizes map[string]int64) bool {
-	ok := true
-	n := 0
-	for _, fn := range c.LibFuncs() {
-		rawInstrs(fn, false, func(in ssa.Instruction) {
-			al, isAl := in.(*ssa.Alloc)
-			if !isAl {
-				return
-			}
-			f, _, _ := complitFieldsAlloc(al)
-			hg, has := f["hashGen"]
-			if !has {
-				return
-			}
-			n++
-			k := int64(0)
-			if v, has := f["icvLength"]; has {
-				kk, isK := constInt(v)
-				if !isK {
-					ok = false
-					return
-				}
-				k = kk
-			}
-			hf, isF := stripConv(hg).(*ssa.Function)
-			if !isF {
-				ok = false
-				return
-			}
-			sz, known := sizes[hf.String()]
-			if !known || k < 0 || k > sz {
-				ok = false
-			}
-		})
+	pairs, ok := c.authPairs()
+	if !ok {
+		return false
 	}
-	return ok && n > 0
+	for _, pr := range pairs {
+		sz, known := sizes[pr[0]]
+		k, err := strconv.ParseInt(pr[1], 10, 64)
+		if !known || err != nil || k < 0 || k > sz {
+			return false
+		}
+	}
+	return true
 }
 
 // checkLayerConsumption: gopacket's decode loop terminates because each layer
